@@ -35,6 +35,7 @@ const (
 	KSched  = 's' // which enabled goroutine runs next
 	KSelect = 'c' // which ready select arm is taken
 	KEnv    = 'e' // what the environment (network, fault injector) answers
+	KStall  = 'p' // whether a goroutine is held up (descheduled) for a while at a marked point; counts as a scheduling deviation
 )
 
 type G struct {
@@ -85,6 +86,10 @@ type Sched struct {
 	// MaxSteps aborts a run-away execution (livelock guard); 0 = none.
 	MaxSteps uint64
 	Aborted  bool
+	// Stalls, when set, makes every stall point (YieldStall: before an atomic write) a choice:
+	// continue (default) or stay descheduled for one of these virtual durations, as a loaded
+	// machine or a collector pause may do to any goroutine at any instruction.
+	Stalls []time.Duration
 }
 
 // S is the installed scheduler (nil = manual mode).
@@ -219,6 +224,22 @@ func Yield() {
 	}
 	g.state = gRunnable
 	s.park(g)
+}
+
+// YieldStall is Yield at a point where, if the scheduler's Stalls are set, the goroutine may
+// also be held up for a while (a choice of kind KStall).
+func YieldStall(tag string) {
+	s := S
+	if s == nil {
+		return
+	}
+	if g := s.cur; g != nil && !g.killed && len(s.Stalls) > 0 {
+		if c := s.Chooser.Choose(KStall, 1+len(s.Stalls), tag); c > 0 {
+			Sleep(s.Stalls[c-1])
+			return
+		}
+	}
+	Yield()
 }
 
 // Block parks the current goroutine until ready() is true. wakeAt (virtual ns, 0=none)
